@@ -10,10 +10,10 @@
     Abstracted: what the kernel / the peer / the observation socket do is an
     input script (the results returned by [read], [handler], [write_all]).
 
-    Section 1 is the code AS IT IS (with its defects, F19).
-    Section 2 (clearly marked) is the REPAIRED loop [step_fixed].
-    The model used by the correspondence check is selected by the one-line
-    definition [step_impl] at the end of this file. *)
+    [step_fixed] is the code AS IT IS since the F19 repair (commit b7381c9);
+    it is the model tied to the binary ([step_impl]).
+    [step_before_fix] is the loop as it was before that commit, kept only as a
+    historic definition for the spin / exit lemmas. *)
 From SV Require Export Base.Prelude.
 
 (** * Abstract I/O scripts *)
@@ -114,8 +114,8 @@ Definition do_read (rs : list rd) (buf : list Z) : option (list rd * list Z) :=
 
 Definition status_of (h : hres) : Z := match h with HOk => 200 | HErr => 500 end.
 
-(** ** Section 1: the code as it is *)
-Definition step (c : cfg) : cfg :=
+(** ** HISTORIC: the loop before the F19 repair (not today's code) *)
+Definition step_before_fix (c : cfg) : cfg :=
   match st c with
   | Accepting =>
       match pending c with
@@ -146,7 +146,7 @@ Definition step (c : cfg) : cfg :=
   | Exited => c
   end.
 
-(** ** Section 2: THE REPAIRED LOOP (not today's code)
+(** ** The code as it is (exporter.rs since b7381c9)
     EOF before a complete request -> drop the connection, accept the next;
     oversize request -> drop, accept the next; read or write error on a
     connection -> log, accept the next; only [accept] failing leaves [main]. *)
@@ -226,8 +226,7 @@ Definition run_with (stp : cfg -> cfg) (items : list item) : list cout * final :
   let c := iter (bound items) stp (init items) in
   (pad_log (length items) (log c), final_of c).
 
-(** THE model that is compared with the real binary.  After the F19 repair is
-    applied to /repo, change [step] to [step_fixed] here (one line). *)
-Definition step_impl : cfg -> cfg := step.
+(** THE model that is compared with the real binary. *)
+Definition step_impl : cfg -> cfg := step_fixed.
 
 Definition run (items : list item) : list cout * final := run_with step_impl items.
